@@ -12,6 +12,8 @@ import IocProofs.Lemmas.MatchExamples
 import IocProofs.Lemmas.M2SucceedsPerm
 import Ioc.Generated.Facts
 import IocProofs.Lemmas.SemRefresh
+import IocProofs.Lemmas.Order
+import IocProofs.Lemmas.SemOrder
 namespace Ioc.C10
 open Ioc Ioc.Tag Ioc.Match
 
@@ -254,5 +256,24 @@ theorem C10_code_Refresh_order_independent (sort : (Nat → Nat → Bool) → Li
 /-- non-vacuity: with an insertion sort; definitions 5, 2 (lazy), 9, 1 in two enumeration orders -/
 example : Sem.refreshNames (fun lt l => l.foldr (fun x acc => acc.filter (fun y => lt y x) ++ [x] ++ acc.filter (fun y => !lt y x)) []) [5, 2, 9, 1] (fun n => n == 2) = [1, 5, 9] ∧
     Sem.refreshNames (fun lt l => l.foldr (fun x acc => acc.filter (fun y => lt y x) ++ [x] ++ acc.filter (fun y => !lt y x)) []) [1, 9, 2, 5] (fun n => n == 2) = [1, 5, 9] := by decide
+
+/-! ### the participants' order is a function of their declared class and Order(), not of the registration order
+
+Post-processors, configuration loaders and runners reach their call sites through `SortOrderedComponents`.  The regenerated
+sorter is `Order.sortOrdered` for EVERY `sort.Slice` that meets its contract, and the regenerated comparator is the strict
+`<` on `Order()` values (`Order.less?`, stuck exactly where Go panics) — so two enumeration orders of the same participants
+give sequences that agree on everything the contract compares (`C12_observation_unique` for one list; here: the code). A
+comparator that is not a strict order on the keys (a subtraction that overflows, a mixed key) makes the result depend on the
+input order and breaks these statements. -/
+theorem C10_code_participants_sorted (sort : (Nat → Nat → Bool) → List Nat → List Nat) (part : Nat → Order.Part)
+    (hs : Order.SortSpec part sort) (l : List Nat) :
+    Go.run (Sem.sortPrims sort part) Progs.sortOrderedComponents [.list (l.map Sem.encR)] () =
+      some (.list ((Order.sortOrdered sort part l).map Sem.encR), ()) :=
+  Sem.sortOrderedComponents_sem sort part (Sem.sort_nil_of_spec sort part hs) l
+
+theorem C10_code_comparator_strict (part : Nat → Order.Part) (i j : Nat) :
+    Go.run (Sem.cmpPrims part) Progs.orderedComponentComparator [.ref i 0, .ref j 0] () =
+      (Order.less? part i j).map (fun b => (.bool b, ())) :=
+  Sem.comparator_sem part i j
 
 end Ioc.C10
